@@ -1591,10 +1591,38 @@ def try_lock_sites(F, classes):
     return out
 
 
+def try_lock_falls_back(f, b, m, c):
+    """the failed attempt is not the end of the operation: from the try_* call no return of `f` is reachable without
+    either entering the Some arm of a switch over an Option (the attempt succeeded) or a blocking acquisition of the
+    same lock class.  A loop that probes and then falls out to the return (the record is skipped) stays reported."""
+    ok_blocks = set()
+    for bb in f.live_blocks():
+        t = f.term(bb)
+        if t["k"] == "call":
+            lc = lock_call(t)
+            if lc and not lc[0].startswith("try_") and lc[1] == c:
+                ok_blocks.add(bb)
+        elif t["k"] == "switch":
+            ve = variant_edges(f, bb)
+            if ve and any(is_call_to(r, "try_") for r in root_calls(ve[0])):
+                for n, tgt in ve[1]:
+                    if n == "Some":
+                        ok_blocks.add(tgt)
+    if not ok_blocks:
+        return False
+    reach = f.reach(f.succs(b), avoid_blocks=ok_blocks)
+    return not any(f.term(x)["k"] == "return" for x in reach)
+
+
 def no_try_locks(ctx, RULE, classes, why):
     """an operation that must take effect takes its lock with a blocking call: a try_* acquisition that fails skips the
     operation silently whenever another thread holds the lock"""
     sites = try_lock_sites(ctx.facts, classes)
+    tolerated = [x for x in sites if try_lock_falls_back(*x)]
+    for f, b, m, c in tolerated:
+        ctx.ok(RULE, "%s|non-blocking-lock-with-blocking-fallback|%s" % (f.name, c),
+               "`%s` is an opportunistic first attempt: every path from it to the function's return either took the Some arm of its result or goes through a blocking acquisition of the same lock class" % m, f.where(b))
+    sites = [x for x in sites if x not in tolerated]
     for f, b, m, c in sites:
         ctx.bad(RULE, "%s|non-blocking-lock|%s" % (f.name, c),
                 "locks guarding cache state are taken with blocking calls (read / write / lock): `%s` fails while another thread holds the lock and the guarded operation is then skipped - %s" % (m, why), f.where(b))
